@@ -13,7 +13,7 @@ def run(check):
 
     def root(c):
         sub = _Filter(c, {"TRAV-ROOT"})
-        T.run_cover(sub, "TRAV-COVER", "OperationTransformVisitor", {T.EXPR}, [T.excl_delete, T.excl_tpl_literal, T.excl_arrow], 4, block_override_ok=lambda tr, paths: True)
+        T.run_cover(sub, "TRAV-COVER", "OperationTransformVisitor", {T.EXPR}, [T.excl_delete, T.excl_tpl_literal, T.excl_arrow], {"visit_mut_expr"}, block_override_ok=lambda tr, paths: True)
 
     check.guarded("TRAV-ROOT", root)
     check.guarded("ORDER", X.rule_order)
